@@ -288,6 +288,8 @@ type vf3World struct {
 	seeds  []*vf3Seed
 	tokens map[string][2]string // label -> cursor, call
 	shm    *ShmSegment
+	shmOff uint64 // a valid x=4 batch written into the segment
+	shmLen int
 }
 
 var (
@@ -323,6 +325,9 @@ func vf3World_() *vf3World {
 		w := &vf3World{tokens: map[string][2]string{}}
 		if seg, err := ShmCreate(ShmHeaderSize + 65536); err == nil {
 			w.shm = seg
+			if off, ln, ok, err := seg.AllocateAndWrite(vfI64Batch("x", 4)); err == nil && ok {
+				w.shmOff, w.shmLen = off, ln
+			}
 		}
 		h := vf3HTTPServer(vf3Server(false), vf3Key1)
 		for _, m := range []string{"prod", "exch"} {
@@ -701,12 +706,69 @@ type vf3Job struct {
 	Hdr   []string
 	Input []byte
 	Ext   bool
+	// Second, when set, is a later call on the SAME pipe connection: the serve
+	// loop body is driven call by call with one connection-level shm cache, and
+	// between the calls the cached segment's mutex must be free.
+	Second []byte
+}
+
+// vf3ServeHistory drives serveOne (the body of the pipe serve loop) over two
+// inputs that share one connection state.
+func vf3ServeHistory(s *Server, first, second []byte) vf3Verdict {
+	if err := s.notifyTransport(TransportKindPipe, nil); err != nil {
+		return vf3Verdict{Outcome: "transport hook refused"}
+	}
+	shmConn := &shmConnState{}
+	defer shmConn.close()
+	var w bytes.Buffer
+	run := func(in []byte) (pan any) {
+		defer func() { pan = recover() }()
+		r := bytes.NewReader(in)
+		for r.Len() > 0 {
+			if err := s.serveOne(context.Background(), r, &w, shmConn); err != nil {
+				break
+			}
+		}
+		return nil
+	}
+	if pan := run(first); pan != nil {
+		return vf3Verdict{Fail: "panic", Tag: vf3PanicTag(pan), Detail: fmt.Sprintf("panic escaped serveOne on the first call: %v", pan), Outcome: "panic"}
+	}
+	n1, _, err := vfParseStreams(w.Bytes())
+	if err != nil {
+		return vf3Verdict{Fail: "incomplete-output", Detail: "after the first call: " + err.Error(), Outcome: "incomplete"}
+	}
+	if seg := shmConn.seg; seg != nil {
+		if !seg.mu.TryLock() {
+			return vf3Verdict{Fail: "connection-hung-after-bad-pointer", Detail: fmt.Sprintf("the first call was answered (%d stream(s)) but left the connection's shared-memory segment mutex locked: the next call that touches the segment on this connection blocks forever", len(n1)), Outcome: "segment mutex left locked"}
+		}
+		seg.mu.Unlock()
+	}
+	if pan := run(second); pan != nil {
+		return vf3Verdict{Fail: "panic", Tag: vf3PanicTag(pan), Detail: fmt.Sprintf("panic escaped serveOne on the second call: %v", pan), Outcome: "panic"}
+	}
+	n2, _, err := vfParseStreams(w.Bytes())
+	if err != nil {
+		return vf3Verdict{Fail: "incomplete-output", Detail: "after the second call: " + err.Error(), Outcome: "incomplete"}
+	}
+	if len(n2) <= len(n1) {
+		return vf3Verdict{Fail: "no-answer-to-second-call", Detail: fmt.Sprintf("%d stream(s) after the first call, %d after the second", len(n1), len(n2)), Outcome: "second call unanswered"}
+	}
+	last := n2[len(n2)-1]
+	k := fmt.Sprintf("d%d", len(last.Data()))
+	for _, e := range last.Errs() {
+		k += "/" + vfErrOf(e).Type
+	}
+	return vf3Verdict{Outcome: fmt.Sprintf("history first=%d streams, second answered %s", len(n1), k)}
 }
 
 func vf3DriveLocal(sd vf3Job) vf3Verdict {
 	input, ext := sd.Input, sd.Ext
 	vfResetEvents()
 	s := vf3Server(ext)
+	if !sd.HTTP && sd.Second != nil {
+		return vf3ServeHistory(s, input, sd.Second)
+	}
 	if !sd.HTTP {
 		out, _, pan := vfServePipe(s, input)
 		if pan != nil {
@@ -915,7 +977,7 @@ func vf3DriveJudged(sd *vf3Seed, input []byte, ext bool, hdr []string, rejudge b
 }
 
 func vf3DriveOnce(sd *vf3Seed, input []byte, ext bool, hdr []string) (vf3Verdict, bool) {
-	job := vf3Job{HTTP: sd.HTTP, Raw: sd.Raw != nil, Path: sd.Path, Hdr: append(append([]string{}, sd.Hdr...), hdr...), Input: input, Ext: ext}
+	job := vf3Job{HTTP: sd.HTTP, Raw: sd.Raw != nil, Path: sd.Path, Hdr: append(append([]string{}, sd.Hdr...), hdr...), Input: input, Ext: ext, Second: vf3SecondCall}
 	if vf3TheChild == nil {
 		// take the child that was started ahead of time, and start the next one
 		select {
@@ -1033,6 +1095,9 @@ func vf3OpClass(sd *vf3Seed, ops []vf3Op, op vf3Op, v vf3Verdict) string {
 }
 
 var vf3Killed int64
+
+// vf3SecondCall, when non-nil, makes vf3Drive run a two-call history on one pipe connection.
+var vf3SecondCall []byte
 
 var vf3SingleFails = map[string][]bool{}
 
@@ -1168,6 +1233,57 @@ func TestVerif_C03(t *testing.T) {
 				x.Failf(vf3Sig(sd, cls, v), "%s with %s then %s: %s", sd.Name, a.Name, b.Name, v.Detail)
 			}
 			x.Outcome("%s: %s", sd.Name, v.Outcome)
+		})
+	}
+
+	// 2b. two-call histories on one shm-advertising pipe connection: a pointer
+	// operator on the first call, then a call that touches the segment again.
+	if w.shm != nil && w.shmLen > 0 {
+		var pipeReq []*vf3Seed
+		for _, sd := range arrowSeeds {
+			if !sd.HTTP && sd.IsRequest {
+				pipeReq = append(pipeReq, sd)
+			}
+		}
+		size := fmt.Sprint(w.shm.Size())
+		second := func(off, ln string) []byte {
+			b := vf3Req("u", vf3XFields, int64(0))
+			b.Rows = 0
+			b.set(MetaShmSegmentName, w.shm.Name())
+			b.set(MetaShmSegmentSize, size)
+			b.set(MetaShmOffset, off)
+			b.set(MetaShmLength, ln)
+			rb := b.build()
+			defer rb.Release()
+			return vfStreamBytes(rb.Schema(), rb)
+		}
+		seconds := [][2]string{{fmt.Sprint(w.shmOff), fmt.Sprint(w.shmLen)}, {"65536", "64"}}
+		venum.Explore(t, venum.Cfg{Name: "shm-history", Shardable: true}, func(x *venum.X) {
+			sd := pipeReq[x.Choose(len(pipeReq), "seed")]
+			var ops []vf3Op
+			for _, o := range vf3Ops(sd, w) {
+				if strings.HasPrefix(o.Name, "ptr-shm:real:") || o.Name == "shm-advertise:real" {
+					ops = append(ops, o)
+				}
+			}
+			op := ops[x.Choose(len(ops), "first-call")]
+			sc := seconds[x.Choose(len(seconds), "second-call")]
+			in, ext, hdr, ok := vf3Apply(sd, op)
+			if !ok {
+				x.Outcome("inexpressible")
+				return
+			}
+			vf3SecondCall = second(sc[0], sc[1])
+			v := vf3Drive(sd, in, ext, hdr)
+			vf3SecondCall = nil
+			if v.Fail != "" {
+				cls := "shm-history"
+				if v.Fail == "panic" {
+					cls = "shm-history:" + op.Name
+				}
+				x.Failf(vf3Sig(sd, cls, v), "%s: first call with %s, then a shm pointer call (%s+%s) on the same connection: %s", sd.Name, op.Name, sc[0], sc[1], v.Detail)
+			}
+			x.Outcome("%s %s: %s", sd.Name, op.Name, v.Outcome)
 		})
 	}
 
